@@ -12,8 +12,9 @@ pub use crate::stream_tx::UserTx;
 pub use crate::stream_tx_segments::{
     OnAckResult, Pipe, PopExpiredProbe, Segments, VerifSegment, VerifSegmentsSnapshot,
 };
+pub use crate::socket::verif_driver::{BoxedStreamFuture, DispatcherDriver, VerifDispatcherSnapshot};
 pub use crate::stream_dispatch::verif_driver::{
-    SendOutcome, VerifStreamKind, VerifVsockSnapshot, VsockDriver,
+    ScriptTransport, SendOutcome, VerifStreamKind, VerifVsockSnapshot, VirtEnv, VsockDriver,
 };
 pub use crate::traits::UtpEnvironment;
 pub use crate::utils::{prepare_2_ioslices, seq_nr_offset};
